@@ -97,6 +97,22 @@ Section C13.
     exists bs, encv v = SOk bs /\
       forall fuel rest, (need v <= fuel)%nat -> decode fc pk reg fuel (bs ++ rest) = SOk (v, rest).
   Proof. intros v Hwf He. apply C13_roundtrip_proof; [exact Hwf | apply norm_exact; exact He]. Qed.
+
+  (* encodings are self-delimiting: what follows an encoding cannot change how it is read *)
+  Theorem C13_self_delimiting_proof : forall v1 v2 n1 n2 b1 b2 r1 r2,
+    wf fc reg v1 -> wf fc reg v2 -> norm fc v1 = SOk n1 -> norm fc v2 = SOk n2 ->
+    encv v1 = SOk b1 -> encv v2 = SOk b2 ->
+    b1 ++ r1 = b2 ++ r2 -> n1 = n2 /\ r1 = r2.
+  Proof.
+    intros v1 v2 n1 n2 b1 b2 r1 r2 W1 W2 N1 N2 E1 E2 Heq.
+    destruct (C13_roundtrip_proof v1 n1 W1 N1) as [b1' [E1' R1]].
+    destruct (C13_roundtrip_proof v2 n2 W2 N2) as [b2' [E2' R2]].
+    rewrite E1 in E1'. rewrite E2 in E2'.
+    assert (b1' = b1) as -> by congruence. assert (b2' = b2) as -> by congruence.
+    pose proof (R1 (Nat.max (need v1) (need v2)) r1 ltac:(lia)) as D1.
+    pose proof (R2 (Nat.max (need v1) (need v2)) r2 ltac:(lia)) as D2.
+    rewrite Heq in D1. rewrite D1 in D2. split; congruence.
+  Qed.
   End RoundTrip.
 
   (* ---------- the encoder accepts exactly its domain *)
